@@ -574,6 +574,73 @@ def rule_post(ctx, rep):
                 r.ok(inst, where)
 
 
+def rule_wrapnode(ctx, rep):
+    """parse(render(L)) = L needs more than the same text: a delimiter pair that the grammar turns into a node of its own (`( e )` is
+    `ExprKind::Expression(e)`) may be written only where such a node is rendered.  A writer that brackets other nodes with that pair
+    makes the re-parsed library contain a wrapper node the original did not have - for every such node."""
+    r = rep.rule("R-C10-wrapnode", "delimiters that the grammar reads as a wrapper node of their own are written only when that node is rendered: no other "
+                                   "visit method of the renderer writes both delimiters of a self-wrapping variant (Enum::V(Box<Enum>))", floor=1,
+                 floor_what="self-wrapping variants with a delimiter production")
+    g = ctx.peg
+    adts = ctx.facts.adts
+    wrappers = []
+    for aid, a in adts.items():
+        if a["crate"] != "ironplc_dsl" or len(a["variants"]) < 2:
+            continue
+        for v in a["variants"]:
+            if len(v["fields"]) == 1 and re.sub(r"\s", "", v["fields"][0]["ty"]) in ("alloc::boxed::Box<%s>" % aid, aid):
+                wrappers.append((aid, v["name"]))
+    TOKTXT = {"LeftParen": "(", "RightParen": ")", "LeftBracket": "[", "RightBracket": "]", "LeftBrace": "{", "RightBrace": "}"}
+    n = 0
+    for aid, vname in sorted(wrappers):
+        short = aid.split("::")[-1]
+        # the production that builds it: a sequence whose action mentions Enum::Variant( and which has exactly two delimiter terminals
+        delims = None
+        for rule, sq in g.all_seqs():
+            if sq.action is None:
+                continue
+            code = "".join(t.v for t in sq.action.code)
+            if "%s::%s(" % (short, vname) not in code:
+                continue
+            terms = []
+            for e in sq.elems:
+                if e.prim.kind == "call":
+                    tm = g.terminal(e.prim)
+                    if tm and tm[0] == "tok" and tm[1] in TOKTXT:
+                        terms.append(TOKTXT[tm[1]])
+            if len(terms) == 2:
+                delims = tuple(terms)
+        if not delims:
+            continue
+        n += 1
+        own = "visit_" + re.sub(r"(?<!^)(?=[A-Z])", "_", vname).lower()
+        for b in sorted(ctx.prog.bodies.values(), key=lambda x: x.id):
+            if b.f["crate"] != "ironplc_plc2plc" or not b.f["name"].startswith("visit_") or "::test" in norm(b.id):
+                continue
+            # only nodes that can stand where the wrapper can: payloads of the same enum's other variants
+            ty = None
+            m0 = re.search(r"visit_([a-z_]+)$", b.f["name"])
+            payloads = {re.sub(r"^alloc::boxed::Box<(.*)>$", r"\1", re.sub(r"\s", "", f["ty"])) for v in adts[aid]["variants"] if v["name"] != vname for f in v["fields"]}
+            cand = [t for t in payloads if m0 and re.sub(r"(?<!^)(?=[A-Z])", "_", t.split("::")[-1]).lower() == m0.group(1)]
+            if not cand:
+                continue
+            # everything the method writes, in source order (calls that write, visits of children count as writes of unknown text)
+            writes = []
+            for c in sorted(b.calls(), key=lambda c: (c.loc[0], c.loc[1])):
+                nm = (c.callee or c.u or "").split("::")[-1]
+                if nm in ("write_ws", "write", "push_str", "write_char", "push") and len(c.args) >= 2:
+                    writes.append(b.const_str(c.args[1]))
+                elif nm.startswith("visit_") or nm == "recurse_visit":
+                    writes.append(None)
+            inst = "%s::%s|%s" % (short, vname, b.f["name"])
+            if writes and writes[0] == delims[0] and writes[-1] == delims[1]:
+                r.finding(inst + "|writes %s%s" % delims, "%s:%d" % (b.f["file"], b.f["line"]),
+                          "%s writes `%s` .. `%s`; the grammar reads that pair as %s::%s, so the re-parsed library has a wrapper node here that the rendered library "
+                          "did not have (the text is a fixed point, the library is not equal)" % (b.f["name"], delims[0], delims[1], short, vname))
+        r.ok("%s::%s|delimiters %s %s" % (short, vname, delims[0], delims[1]), "dsl")
+    r.note("%d self-wrapping variants with a delimiter production" % n)
+
+
 def run(ctx, rep):
     rep.not_decided += ["parse(render(L)) == L itself (value-level)", "numeric formatting other than the fraction point of reals (durations truncated to whole ms)",
                         "separator/bracket completeness per production (design rule R-C10-sep not implemented: needs per-production token multisets)",
@@ -588,3 +655,4 @@ def run(ctx, rep):
     rule_raw(ctx, rep)
     rule_fracpad(ctx, rep)
     rule_post(ctx, rep)
+    rule_wrapnode(ctx, rep)
